@@ -143,11 +143,26 @@ floats = st.one_of(
     st.sampled_from(_SPECIAL_FLOATS),
     st.builds(lambda m, e, neg: float("%s%de%d" % ("-" if neg else "", m, e)), st.integers(1, 999999), st.integers(-307, 302), st.booleans()),
 )
+# well-known multi-byte sequences (see tokens() in harness/c04_json_roundtrip.cc): UTF-8 BOM, U+2028/U+2029, NBSP, first / last
+# code points of each encoded length, U+FFFD, emoji, CESU-8 surrogates, overlong / out-of-range / truncated forms, UTF-16 BOMs,
+# CRLF, terminal escapes, markup, texts that look like JSON escapes / comments / literals, printf directives
+_TOKENS = [b"\xef\xbb\xbf", b"\xe2\x80\xa8", b"\xe2\x80\xa9", b"\xc2\xa0", b"\xc2\x80", b"\xc2\x85", b"\xc3\xa9", b"\xdf\xbf", b"\xe0\xa0\x80",
+           b"\xef\xbf\xbd", b"\xef\xbf\xbe", b"\xef\xbf\xbf", b"\xe2\x80\x8b", b"\xe2\x80\xae", b"\xe2\x82\xac", b"\xf0\x9f\x98\x80",
+           b"\xf0\x90\x80\x80", b"\xf4\x8f\xbf\xbf", b"\xed\xa0\x80", b"\xed\xbf\xbf", b"\xed\xa0\xbd\xed\xb8\x80", b"\xc0\x80", b"\xc0\xaf",
+           b"\xe0\x80\x80", b"\xf0\x80\x80\x80", b"\xf4\x90\x80\x80", b"\xf8\x88\x80\x80\x80", b"\xc2", b"\xe2", b"\xe2\x80", b"\xf0\x9f\x98",
+           b"\x80", b"\xbf", b"\xa8", b"\xfe\xff", b"\xff\xfe", b"\r\n", b"\n\r", b"\r", b"\n", b"\x1b[0m", b"\x1b[31;1m", b"\x1b", b"\x9b", b"\x00",
+           b"\x7f", b"\x1f", b"\x85", b"\xa0", b"\xad", b"</script>", b"<!--", b"-->", b"]]>", b"&amp;", b"<", b">", b"'", b"`",
+           b"\\u2028", b"\\u2029", b"\\u0000", b"\\u00e9", b"\\u", b"\\ud83d\\ude00", b"\\x41", b"\\x", b"\\n", b"\\\"", b"\\\\", b"\\", b"\"", b"\\/", b"/",
+           b"/*", b"*/", b"//", b"#", b"null", b"true", b"false", b"NaN", b"Infinity", b"-0", b"1e5", b"0x1F", b",", b":", b"{", b"}", b"[", b"]",
+           b"{}", b"[]", b"\"\"", b" ", b"\t", b"%s", b"%n", b"%%", b"${"]
 byte_strings = st.one_of(
     st.just(b""),
     st.binary(max_size=16),
     st.lists(st.sampled_from(list(_BOOST)), max_size=10).map(bytes),
     st.lists(st.integers(0x20, 0x7E), max_size=12).map(bytes),
+    # 1..4 pieces, each a well-known sequence or a few arbitrary bytes: the sequences end up at the start, in the middle, at
+    # the end and next to each other
+    st.lists(st.one_of(st.sampled_from(_TOKENS), st.binary(max_size=3)), min_size=1, max_size=4).map(b"".join),
 )
 leaves = st.one_of(st.none(), st.booleans(), ints, floats, byte_strings)
 
